@@ -816,6 +816,20 @@ func Go(label string, f func()) {
 	s.newThread(label+"@"+caller(), f)
 }
 
+// Unfinished lists the labels of the threads (other than the caller) that have not finished yet, daemons excluded.
+func Unfinished() []string {
+	var r []string
+	if s == nil {
+		return r
+	}
+	for _, t := range s.threads {
+		if t != s.cur && !t.finished && !t.daemon {
+			r = append(r, t.label)
+		}
+	}
+	return r
+}
+
 // Daemon marks the calling thread: it may stay blocked when the execution ends.
 func Daemon() {
 	if s != nil && s.cur != nil {
@@ -937,6 +951,10 @@ type SendCase[E any] struct {
 }
 
 func (c *SendCase[E]) sel() selCase { return selCase{ch: chanOf(c.ch), isSend: true, val: c.v} }
+
+// Case: the send case of a select; the element type comes from the channel alone, so a value that is merely assignable
+// to it (a named slice type sent on a chan []byte) is accepted exactly as the native send statement accepts it.
+func (e SendEnd[E]) Case(v E) *SendCase[E] { return &SendCase[E]{ch: e.ch, v: v} }
 
 func CaseRecv[E any](ch <-chan E) *RecvCase[E]      { return &RecvCase[E]{ch: ch} }
 func CaseSend[E any](ch chan<- E, v E) *SendCase[E] { return &SendCase[E]{ch: ch, v: v} }
